@@ -53,11 +53,16 @@ def gen_plan(prop, run_seed, tier):
 
 def _gen_one(w, s, tier):
     n_samples = w.randint(1, 6)
+    bigmode = w.choice(["samples", "plates", "k"]) if w.random() < 0.05 else None
+    if bigmode == "samples":
+        n_samples = w.choice([17, 34])
     rows = []
     pno = 0
     counts = []
     for si in range(n_samples):
         n_pl = w.choice([0, 1, 2, 2, 3, 4, 5, 6])
+        if bigmode in ("plates", "k") and si < 2:
+            n_pl = w.choice([12, 34])
         counts.append(n_pl)
         for _ in range(n_pl):
             observed = w.random() < 0.2
@@ -74,6 +79,8 @@ def _gen_one(w, s, tier):
         r = w.choice(unobs_rows)  # the policy only ever sees batch plates and unobserved plates
         rows.append([r[0] + "x", [["d0", 1.0], ["d1", 1.0]], 0.5, r[3], r[4]])  # a second sample on one plate
     k = w.randint(1, 4)
+    if bigmode == "k":
+        k = w.choice([9, 12, 33])
     small = pno <= 6
     return dict(engine="batchsim", prop="C16", screen=dict(control="", arity=2, rows=rows), k=k, max_len=3 * k,
                 path=s.choice(["func", "func", "func-reveal", "cli", "cli-reveal"]), multi=multi, seed=s.randrange(2**31),
